@@ -236,3 +236,18 @@ def _f25(f, pid, case, clause, ctx):
         return False
     keys = ("shape", "value", "block", "rank", "grid")
     return any(k in clause for k in keys)
+
+
+@matcher("lowering_cache_serves_unification_of_another_policy")
+def _f26(f, pid, case, clause, ctx):
+    import ast
+
+    if case.get("fn") != "history" or not clause.startswith("value-depends-on-history-or-configuration"):
+        return False
+    if not any(a.get("a") == "Dot" for a in case.get("prog", [])):
+        return False
+    try:
+        cfgs = [ast.literal_eval(x) for x in case.get("cfgs", [])]
+    except Exception:
+        return False
+    return len(cfgs) >= 2 and any(any(c[k] != cfgs[0][k] for c in cfgs[1:]) for k in f["params"]["keys"])
